@@ -1,9 +1,5 @@
 // harness: c10_order::c10_compare_numeric_looking_strings_witness (feature c10)
 // replay: cd /verif && ./check --replay /verif/evidence/replays/C10/c10_compare_numeric_looking_strings_witness.rs
-/// Test generated for harness `c10_order::c10_compare_numeric_looking_strings_witness` 
-///
-/// Check for `assertion`: ""string keys compare in string order""
-
 #[test]
 fn kani_concrete_playback_c10_compare_numeric_looking_strings_witness_9082006346078058078() {
     let concrete_vals: Vec<Vec<u8>> = vec![
